@@ -377,20 +377,27 @@ func solveAll(ctxOf func(o *Obligation) *Ctx, obls []*Obligation, cfg solveCfg) 
 	}
 	wg.Wait()
 	// an obligation that no solver decided in the parallel pass is tried again on its own (nothing else running) with
-	// three times the time: a timeout under machine load must not be mistaken for a failed proof. At most 8 retries, so a
-	// change that breaks many obligations does not make the run much longer.
+	// twice the time: a timeout under machine load must not be mistaken for a failed proof. Only when at most 3 obligations are
+	// undecided, so that a change that breaks obligations does not make the run much longer.
+	nUnknown := 0
+	for _, o := range obls {
+		if o.Status == "unknown" && !o.ExpectSat && o.Kind != "effect" && o.Kind != "shape" {
+			nUnknown++
+		}
+	}
 	retried := 0
 	for i, o := range obls {
 		if o.Status != "unknown" || o.ExpectSat || o.Kind == "effect" || o.Kind == "shape" {
 			continue
 		}
-		if retried >= 8 {
+		// load-induced timeouts hit one or two obligations; many undecided obligations mean the code changed
+		if nUnknown > 3 || retried >= 3 {
 			break
 		}
 		retried++
 		prev := o.Answers
 		c2 := cfg
-		c2.timeout = cfg.timeout * 3
+		c2.timeout = cfg.timeout * 2
 		solveOne(ctxOf(o), o, c2, i)
 		if o.Status == "unknown" {
 			for k, v := range prev {
